@@ -49,6 +49,9 @@ CONSTANTS
   KeyByAsked,            \* F10: trans keyed by the reference asked for only
   RecordAfter,           \* mutation: trans recorded after recursing
   DropParms,             \* mutation: the copied stream loses /DecodeParms
+  TargetOpen,            \* the caller has a stream open on the target Writer while it copies: Writer.Put
+                         \* queues the objects and writes them when that stream is closed (at the end)
+  SharedBuffer,          \* mutation: decrypted stream data live in one buffer of the copier, reused for the next stream
   BoundBeforeRead,       \* mutation: the chain-length bound is tested before the last reference is read
   InlinedAsIs,           \* mutation: an indirect or array /Filter, /DecodeParms is stored as inlineFilterRefs
                          \* returns it, references nested in parameter dictionaries are not translated
@@ -79,8 +82,10 @@ VARIABLES
   log,    \* finished top-level calls with their results
   fail,   \* "" | "panic" | "unsupported"
   steps,
-  phase   \* "run" | "done"
-vars == <<g, hi, stack, ret, trans, ext, dst, next, puts, log, fail, steps, phase>>
+  phase,  \* "run" | "done"
+  queue,  \* Writer.afterStream: objects put while a stream is open on the target, written when it is closed
+  buf     \* (mutation SharedBuffer) the body held by the copier's one decryption buffer
+vars == <<g, hi, stack, ret, trans, ext, dst, next, puts, log, fail, steps, phase, queue, buf>>
 
 NoRet == [has |-> FALSE]
 Ret(v) == [has |-> TRUE, v |-> v]
@@ -190,6 +195,7 @@ Init ==
   /\ fail = ""
   /\ steps = 0
   /\ phase = "run"
+  /\ queue = <<>> /\ buf = "none"
 
 ArrFrame(es) == [f |-> "arr", todo |-> es, done |-> <<>>]
 DictFrame(ks, es) == [f |-> "dict", k |-> ks, todo |-> es, done |-> <<>>]
@@ -211,13 +217,13 @@ CallCopyReference(c) ==
   /\ CanCall /\ c.op = "ref"
   /\ Adv(<<c.n>>, hi) # N + 1 /\ hi' = Adv(<<c.n>>, hi)
   /\ stack' = <<[f |-> "top", call |-> c, todo |-> <<Rf(c.n)>>, done |-> <<>>]>>
-  /\ Tick /\ UNCHANGED <<g, ret, trans, ext, dst, next, puts, log, fail, phase>>
+  /\ Tick /\ UNCHANGED <<g, ret, trans, ext, dst, next, puts, log, fail, phase, queue, buf>>
 
 CallCopy(c) ==      \* Copy(v), v a direct object built by the caller
   /\ CanCall /\ c.op = "val"
   /\ Adv(Mentions(c.v), hi) # N + 1 /\ hi' = Adv(Mentions(c.v), hi)
   /\ stack' = <<[f |-> "top", call |-> c, todo |-> <<c.v>>, done |-> <<>>]>>
-  /\ Tick /\ UNCHANGED <<g, ret, trans, ext, dst, next, puts, log, fail, phase>>
+  /\ Tick /\ UNCHANGED <<g, ret, trans, ext, dst, next, puts, log, fail, phase, queue, buf>>
 
 CallCopyObj(c) ==   \* Copy(x) where x is the value of object n as the caller read it
   /\ CanCall /\ c.op = "obj" /\ c.n \notin RedirSrc /\ ~IsTwin(c.n)
@@ -229,7 +235,7 @@ CallCopyObj(c) ==   \* Copy(x) where x is the value of object n as the caller re
           /\ hi' = IF g[c.n].k = "?" THEN h ELSE Adv(<<c.n>>, hi)
        /\ g' = [g EXCEPT ![c.n] = kd]
        /\ stack' = <<[f |-> "top", call |-> c, todo |-> <<kd.v>>, done |-> <<>>]>>
-  /\ Tick /\ UNCHANGED <<ret, trans, ext, dst, next, puts, log, fail, phase>>
+  /\ Tick /\ UNCHANGED <<ret, trans, ext, dst, next, puts, log, fail, phase, queue, buf>>
 
 CallRedirect(c) ==  \* Redirect(n, x) with x an object the caller has put into the target
   /\ CanCall /\ c.op = "redirect" /\ NoCopyYet
@@ -245,13 +251,13 @@ CallRedirect(c) ==  \* Redirect(n, x) with x an object the caller has put into t
   /\ ext' = ext \cup {<<c.n, next>>}
   /\ next' = next + 1
   /\ log' = Append(log, [call |-> c, res |-> Rf(next)])
-  /\ Tick /\ UNCHANGED <<stack, ret, puts, fail, phase>>
+  /\ Tick /\ UNCHANGED <<stack, ret, puts, fail, phase, queue, buf>>
 
 CallReturn ==
   /\ Running /\ Len(stack) = 1 /\ Top.f = "top" /\ Top.todo = <<>> /\ ~ret.has
   /\ log' = Append(log, [call |-> Top.call, res |-> Top.done[1]])
   /\ stack' = <<>>
-  /\ Tick /\ UNCHANGED <<g, hi, ret, trans, ext, dst, next, puts, fail, phase>>
+  /\ Tick /\ UNCHANGED <<g, hi, ret, trans, ext, dst, next, puts, fail, phase, queue, buf>>
 
 (* ---- CopyArray / CopyDict / the dispatch in Copy ---- *)
 ElemReady == Running /\ stack # <<>> /\ IsContainerFrame(Top) /\ ~ret.has /\ Top.todo # <<>>
@@ -262,22 +268,22 @@ CopyElemLeaf ==     \* scalars are returned as they are; a nil array element sta
   /\ ElemReady
   /\ Elem.t = "s" \/ (Elem.t = "z" /\ ~(Top.f = "dict" /\ NilEntryPanics))
   /\ Consume(Elem)
-  /\ Tick /\ UNCHANGED <<g, hi, ret, trans, ext, dst, next, puts, log, fail, phase>>
+  /\ Tick /\ UNCHANGED <<g, hi, ret, trans, ext, dst, next, puts, log, fail, phase, queue, buf>>
 
 CopyDictNilPanics ==   \* val.AsPDF on a nil interface
   /\ ElemReady /\ Top.f = "dict" /\ Elem.t = "z" /\ NilEntryPanics
   /\ fail' = "panic"
-  /\ Tick /\ UNCHANGED <<g, hi, stack, ret, trans, ext, dst, next, puts, log, phase>>
+  /\ Tick /\ UNCHANGED <<g, hi, stack, ret, trans, ext, dst, next, puts, log, phase, queue, buf>>
 
 CopyElemNested ==
   /\ ElemReady /\ Elem.t \in {"a", "d", "st"}
   /\ stack' = stack \o FramesFor(Elem)
-  /\ Tick /\ UNCHANGED <<g, hi, ret, trans, ext, dst, next, puts, log, fail, phase>>
+  /\ Tick /\ UNCHANGED <<g, hi, ret, trans, ext, dst, next, puts, log, fail, phase, queue, buf>>
 
 CopyRefHit ==
   /\ ElemReady /\ Elem.t = "r" /\ TK(Elem.n) \in DOMAIN trans
   /\ Consume(Rf(trans[TK(Elem.n)]))
-  /\ Tick /\ UNCHANGED <<g, hi, ret, trans, ext, dst, next, puts, log, fail, phase>>
+  /\ Tick /\ UNCHANGED <<g, hi, ret, trans, ext, dst, next, puts, log, fail, phase, queue, buf>>
 
 CopyRefEnter ==
   /\ ElemReady /\ Elem.t = "r" /\ TK(Elem.n) \notin DOMAIN trans
@@ -287,24 +293,24 @@ CopyRefEnter ==
           /\ stack' = Append(stack, [f |-> "ref", src |-> Elem.n, new |-> next, chain |-> <<Elem.n>>, cur |-> Elem.n, ph |-> "walk", obj |-> 0])
      ELSE /\ stack' = Append(stack, [f |-> "ref", src |-> Elem.n, new |-> 0, chain |-> <<Elem.n>>, cur |-> Elem.n, ph |-> "walk", obj |-> 0])
           /\ UNCHANGED <<next, trans>>
-  /\ Tick /\ UNCHANGED <<g, hi, ret, ext, dst, puts, log, fail, phase>>
+  /\ Tick /\ UNCHANGED <<g, hi, ret, ext, dst, puts, log, fail, phase, queue, buf>>
 
 CopyElemRet ==
   /\ Running /\ stack # <<>> /\ IsContainerFrame(Top) /\ ret.has
   /\ Consume(ret.v) /\ ret' = NoRet
-  /\ Tick /\ UNCHANGED <<g, hi, trans, ext, dst, next, puts, log, fail, phase>>
+  /\ Tick /\ UNCHANGED <<g, hi, trans, ext, dst, next, puts, log, fail, phase, queue, buf>>
 
 CopyArrayDone ==
   /\ Running /\ stack # <<>> /\ Top.f = "arr" /\ Top.todo = <<>> /\ ~ret.has
   /\ stack' = Below
   /\ ret' = Ret(IF Top.done = <<>> /\ EmptyArrayNil THEN Nul ELSE Ar(Top.done))
-  /\ Tick /\ UNCHANGED <<g, hi, trans, ext, dst, next, puts, log, fail, phase>>
+  /\ Tick /\ UNCHANGED <<g, hi, trans, ext, dst, next, puts, log, fail, phase, queue, buf>>
 
 CopyDictDone ==
   /\ Running /\ stack # <<>> /\ Top.f = "dict" /\ Top.todo = <<>> /\ ~ret.has
   /\ stack' = Below
   /\ ret' = Ret(Di(Top.k, Top.done))
-  /\ Tick /\ UNCHANGED <<g, hi, trans, ext, dst, next, puts, log, fail, phase>>
+  /\ Tick /\ UNCHANGED <<g, hi, trans, ext, dst, next, puts, log, fail, phase, queue, buf>>
 
 (* ---- CopyReference below the trans lookup ---- *)
 InRef == Running /\ stack # <<>> /\ Top.f = "ref"
@@ -319,7 +325,7 @@ Reveal ==
        /\ ~(kd.k = "ref" /\ kd.to \in RedirSrc)
        /\ hi' = Adv(KindMentions(kd), hi)
        /\ g' = [g EXCEPT ![Top.cur] = kd]
-  /\ Tick /\ UNCHANGED <<stack, ret, trans, ext, dst, next, puts, log, fail, phase>>
+  /\ Tick /\ UNCHANGED <<stack, ret, trans, ext, dst, next, puts, log, fail, phase, queue, buf>>
 
 ResolveGiveUp ==   \* (mutation) the loop ends before the reference at hand is read
   /\ InRef /\ Top.ph = "walk" /\ GaveUp /\ g[Top.cur].k # "?"     \* (the model looks at the object first)
@@ -328,7 +334,7 @@ ResolveGiveUp ==   \* (mutation) the loop ends before the reference at hand is r
      /\ trans' = IF Top.new = 0 THEN [c \in ChainKeys |-> d] @@ trans ELSE trans
      /\ stack' = Below \o <<[Top EXCEPT !.ph = "put", !.new = d, !.obj = 0]>>
      /\ ret' = Ret(Nul)
-  /\ Tick /\ UNCHANGED <<g, hi, ext, dst, puts, log, fail, phase>>
+  /\ Tick /\ UNCHANGED <<g, hi, ext, dst, puts, log, fail, phase, queue, buf>>
 
 ResolveHop ==
   /\ InRef /\ Top.ph = "walk" /\ g[Top.cur].k = "ref" /\ ~GaveUp
@@ -348,7 +354,7 @@ ResolveHop ==
           /\ UNCHANGED <<dst, puts>>
      ELSE /\ stack' = Below \o <<[Top EXCEPT !.cur = m, !.chain = Append(@, m)]>>
           /\ UNCHANGED <<trans, ret, dst, next, puts>>
-  /\ Tick /\ UNCHANGED <<g, hi, ext, log, fail, phase>>
+  /\ Tick /\ UNCHANGED <<g, hi, ext, log, fail, phase, queue, buf>>
 
 ResolveEnd ==    \* the chain ends: Copy(value), or null for a free / undefined object
   /\ InRef /\ Top.ph = "walk" /\ g[Top.cur].k \in {"val", "free", "dangling"} /\ ~GaveUp
@@ -359,15 +365,18 @@ ResolveEnd ==    \* the chain ends: Copy(value), or null for a free / undefined 
         /\ trans' = IF Top.new = 0 THEN [c \in ChainKeys |-> d] @@ trans ELSE trans
         /\ IF IsLeaf(v) THEN stack' = Below \o <<fr>> /\ ret' = Ret(v)
            ELSE stack' = Below \o <<fr>> \o FramesFor(v) /\ ret' = NoRet
-  /\ Tick /\ UNCHANGED <<g, hi, ext, dst, puts, log, fail, phase>>
+  /\ Tick /\ UNCHANGED <<g, hi, ext, dst, puts, log, fail, phase, queue, buf>>
 
+(* the bytes of a stream value are read when the Writer writes it *)
+Now(v) == IF v.t = "st" THEN (IF v.raw.body = "@buf" THEN [v EXCEPT !.raw.body = buf] ELSE v) ELSE v
 PutDst ==
   /\ InRef /\ Top.ph = "put" /\ ret.has
-  /\ dst' = (Top.new :> ret.v) @@ dst
+  /\ IF TargetOpen THEN queue' = Append(queue, [d |-> Top.new, v |-> ret.v]) /\ UNCHANGED dst
+     ELSE dst' = (Top.new :> Now(ret.v)) @@ dst /\ UNCHANGED queue
   /\ puts' = Append(puts, [src |-> Top.obj, d |-> Top.new])
   /\ trans' = IF RecordAfter THEN (TK(Top.src) :> Top.new) @@ trans ELSE trans
   /\ stack' = Below /\ ret' = Ret(Rf(Top.new))
-  /\ Tick /\ UNCHANGED <<g, hi, ext, next, log, fail, phase>>
+  /\ Tick /\ UNCHANGED <<g, hi, ext, next, log, fail, phase, buf>>
 
 (* ---- Copy(stream) ---- *)
 InStream == Running /\ stack # <<>> /\ Top.f = "st"
@@ -375,7 +384,7 @@ StreamDictRet ==
   /\ InStream /\ Top.ph = "dict" /\ ret.has
   /\ stack' = Below \o <<[Top EXCEPT !.ph = "Filter", !.res = ret.v]>>
   /\ ret' = NoRet
-  /\ Tick /\ UNCHANGED <<g, hi, trans, ext, dst, next, puts, log, fail, phase>>
+  /\ Tick /\ UNCHANGED <<g, hi, trans, ext, dst, next, puts, log, fail, phase, queue, buf>>
 
 NextPh(ph) == IF ph = "Filter" THEN "DecodeParms" ELSE "data"
 StreamInline ==   \* copyStreamDict: res[key] = Copy(inlineFilterRefs(src[key]))
@@ -392,14 +401,14 @@ StreamInline ==   \* copyStreamDict: res[key] = Copy(inlineFilterRefs(src[key]))
      ELSE LET x == Inline(g, Entry(Top.v, key)) IN
           IF IsLeaf(x) THEN stack' = Below \o <<[Top EXCEPT !.ph = NextPh(key), !.res = SetKey(@, key, x)]>>
           ELSE stack' = Below \o <<[Top EXCEPT !.ph = key \o "-ret"]>> \o FramesFor(x)
-  /\ Tick /\ UNCHANGED <<g, hi, ret, trans, ext, dst, next, puts, log, fail, phase>>
+  /\ Tick /\ UNCHANGED <<g, hi, ret, trans, ext, dst, next, puts, log, fail, phase, queue, buf>>
 
 StreamInlineRet ==
   /\ InStream /\ Top.ph \in {"Filter-ret", "DecodeParms-ret"} /\ ret.has
   /\ LET key == IF Top.ph = "Filter-ret" THEN "Filter" ELSE "DecodeParms" IN
      stack' = Below \o <<[Top EXCEPT !.ph = NextPh(key), !.res = SetKey(@, key, ret.v)]>>
   /\ ret' = NoRet
-  /\ Tick /\ UNCHANGED <<g, hi, trans, ext, dst, next, puts, log, fail, phase>>
+  /\ Tick /\ UNCHANGED <<g, hi, trans, ext, dst, next, puts, log, fail, phase, queue, buf>>
 
 StreamData ==
   /\ InStream /\ Top.ph = "data" /\ ~ret.has
@@ -408,18 +417,26 @@ StreamData ==
      THEN fail' = "unsupported" /\ UNCHANGED <<stack, ret>>
      ELSE /\ stack' = Below
           /\ ret' = Ret([t |-> "st", k |-> Top.res.k, e |-> Top.res.e, cf |-> Top.v.cf,
-                         raw |-> [body |-> Top.v.body, spec |-> DeepSpec(g, Top.v),
+                         raw |-> [body |-> IF SharedBuffer /\ r = "decrypt" THEN "@buf" ELSE Top.v.body,
+                                  spec |-> DeepSpec(g, Top.v),
                                   \* plaintext reaches the Writer iff the bytes were plaintext and are reused,
                                   \* or were encrypted by the default filter and are decrypted
                                   plain |-> (IF SrcEnc = "none" \/ Top.v.cf = "identity" THEN r = "verbatim"
                                              ELSE r = "decrypt" /\ Top.v.cf = "default")]])
           /\ UNCHANGED fail
-  /\ Tick /\ UNCHANGED <<g, hi, trans, ext, dst, next, puts, log, phase>>
+  /\ buf' = IF SharedBuffer /\ ~VerbatimAlways /\ Recipe(Top.v) = "decrypt" THEN Top.v.body ELSE buf
+  /\ Tick /\ UNCHANGED <<g, hi, trans, ext, dst, next, puts, log, phase, queue>>
 
+(* the caller closes its stream (the queued objects are written), then puts *)
+(* the stream values Copy returned to it                                    *)
 Finish ==
   /\ phase = "run" /\ (fail # "" \/ stack = <<>>)
   /\ phase' = "done"
-  /\ UNCHANGED <<g, hi, stack, ret, trans, ext, dst, next, puts, log, fail, steps>>
+  /\ dst' = [d \in {queue[i].d : i \in 1..Len(queue)} |->
+               Now(queue[CHOOSE i \in 1..Len(queue) : queue[i].d = d].v)] @@ dst
+  /\ queue' = <<>>
+  /\ log' = [i \in 1..Len(log) |-> [log[i] EXCEPT !.res = Now(@)]]
+  /\ UNCHANGED <<g, hi, stack, ret, trans, ext, next, puts, fail, steps, buf>>
 Done == phase = "done" /\ UNCHANGED vars
 
 Machine ==
